@@ -230,6 +230,8 @@ def run(ctx):
                     ctx.add('sequences_skipped_for_time')
                     continue
                 seed = ctx.seed * 1000 + s
+                if s == 0 and job % 3 == 0:
+                    seed = [0, 2**32 - 1][job % 2]  # special seed values
 
                 def make(data=data, seed=seed):
                     env = compose.factory_env(data)
